@@ -471,6 +471,20 @@ func c09Directed() []C09Case {
 			out = append(out, c)
 		}
 	}
+	// a server variable and a template variable of the same name: the parameters returned are the template's
+	for _, tc := range [][3]string{{"/{region}/api/{version}", "/us/api/v2/compat/v1/items/7", "/compat/{version}/items/{id}"},
+		{"/{region}/api/{version}", "/us/api/v2/compat/v2/items/7", "/compat/{version}/items/{id}"},
+		{"https://api.example.com/{id}", "https://api.example.com/a/pets/b", "/pets/{id}"}} {
+		c := C09Case{Paths: []C09Path{{tc[2], []string{"GET"}}}, Method: "GET", URL: tc[1],
+			Servers: []C09Server{{URL: tc[0], Vars: map[string]C09Var{"region": {Default: "us"}, "version": {Default: "v2", Enum: []string{"v1", "v2"}}, "id": {Default: "a"}}}}}
+		vars := map[string]C09Var{}
+		for _, m := range varRe.FindAllStringSubmatch(tc[0], -1) {
+			vars[m[1]] = c.Servers[0].Vars[m[1]]
+		}
+		c.Servers[0].Vars = vars
+		c.strip()
+		out = append(out, c)
+	}
 	return out
 }
 
